@@ -26,15 +26,16 @@ pub fn j_forward(src: TimeScale, tai: i128, next_tai: Option<i128>, m: &EtDb, ou
         let et_back = et.to_time_scale(src);
         let tdb_back = tdb.to_time_scale(src);
         let acc = (alpha(e.to_et_duration()), alpha(e.to_tdb_duration()), e.to_et_seconds(), e.to_tdb_seconds());
+        let since = (e.to_et_days_since_j2000(), e.to_et_centuries_since_j2000(), e.to_tdb_days_since_j2000(), e.to_tdb_centuries_since_j2000());
         let jde = (alpha(e.to_jde_et_duration()), alpha(e.to_jde_tdb_duration()));
         let nxt = next_tai.map(|n| {
             let e2 = Epoch::from_duration(mk(n - scales::zero_tai(src).unwrap()), src);
             (alpha(e2.to_time_scale(TimeScale::ET).duration), alpha(e2.to_time_scale(TimeScale::TDB).duration))
         });
-        (et, tdb, et_back, tdb_back, acc, nxt, jde)
+        (et, tdb, et_back, tdb_back, acc, nxt, jde, since)
     });
     match r {
-        Ok((et, tdb, et_back, tdb_back, acc, nxt, jde)) => {
+        Ok((et, tdb, et_back, tdb_back, acc, nxt, jde, since)) => {
             let (a_et, a_tdb) = (alpha(et.duration), alpha(tdb.duration));
             if et.time_scale != TimeScale::ET || tdb.time_scale != TimeScale::TDB {
                 out.viol("c07.forward", "scale-label-wrong".into(), args, "ET / TDB".into(), format!("{} / {}", scale_name(et.time_scale), scale_name(tdb.time_scale)));
@@ -69,6 +70,12 @@ pub fn j_forward(src: TimeScale, tai: i128, next_tai: Option<i128>, m: &EtDb, ou
                 return;
             }
             let f_ok = crate::oracle::ulp::within_ulps(acc.2, a_et, NS_S, 8, 1.0).0 && crate::oracle::ulp::within_ulps(acc.3, a_tdb, NS_S, 8, 1.0).0;
+            let w = crate::oracle::ulp::within_ulps;
+            let since_ok = w(since.0, a_et, NS_DAY, 8, 1.0 / 86_400.0).0 && w(since.1, a_et, NPC, 8, 1.0 / 3_155_760_000.0).0 && w(since.2, a_tdb, NS_DAY, 8, 1.0 / 86_400.0).0 && w(since.3, a_tdb, NPC, 8, 1.0 / 3_155_760_000.0).0;
+            if !since_ok {
+                out.viol("c07.forward", "days-or-centuries-since-j2000-differ-from-the-duration".into(), args, format!("{a_et} ns / {a_tdb} ns in days and centuries"), format!("{since:?}"));
+                return;
+            }
             if acc.0 != a_et || acc.1 != a_tdb || !f_ok {
                 out.viol("c07.forward", "accessor-differs-from-to_time_scale".into(), args, format!("{a_et} / {a_tdb}"), format!("{acc:?}"));
                 return;
@@ -240,6 +247,12 @@ pub fn run(rep: &mut Report) {
         sweep(rep, &format!("c07.reverse[{},EL]", scale_name(which)), elr.len() as u64 * 6, |i, out| j_reverse(which, elr[(i / 6) as usize], SRC[(i % 6) as usize], &m, out));
     }
     sweep(rep, "c07.zero", 2, |i, out| j_zero([TimeScale::ET, TimeScale::TDB][i as usize], out));
+    // from_et_seconds / from_tdb_seconds: an ET / TDB epoch with that count of seconds past J2000 (C18's conversion rule)
+    let cf = ctor_floats();
+    let ncf = cf.len() as u64;
+    sweep(rep, "c07.float_ctor", 2 * ncf, |i, out| {
+        j_scale_float_ctor("c07.float_ctor", [TimeScale::ET, TimeScale::TDB][(i / ncf) as usize], 0, cf[(i % ncf) as usize], out);
+    });
 }
 
 pub fn replay(check: &str, a: &[String], out: &mut Local) -> bool {
@@ -257,6 +270,9 @@ pub fn replay(check: &str, a: &[String], out: &mut Local) -> bool {
         "c07.reverse" => j_reverse(scale_from(&a[0]), p128(&a[1]), scale_from(&a[2]), &m, out),
         "c07.cross" => j_cross(scale_from(&a[0]), p128(&a[1]), &m, out),
         "c07.zero" => j_zero(scale_from(&a[0]), out),
+        "c07.float_ctor" => {
+            j_scale_float_ctor("c07.float_ctor", scale_from(&a[0]), a[1].parse().unwrap(), pf64(&a[2]), out);
+        }
         _ => return false,
     }
     true
